@@ -306,32 +306,32 @@ class Facts:
                     out.append((cid, t))
                 if over_approx_traits and (t.get("unres") or t.get("virt")):
                     for iid in self.impls.get(t.get("f"), ()):
-                        out.append((iid, t))
+                        out.append((iid, t, "approx"))
                 if over_approx_traits and cid not in self.fns and "<" in t.get("fn", ""):
                     # generic library code instantiated with workspace types can call back into the
                     # workspace only through impls of non-workspace traits for those types
                     for ty in set(_PATH_RX.findall(t["fn"])):
                         for iid in self.ext_trait_impls.get(ty, ()):
-                            out.append((iid, t))
+                            out.append((iid, t, "approx"))
                 ops = t.get("a", [])
             for o in ops:
                 if "fn" in o:
                     out.append((o.get("rfn") or o["fn"], t))
                     if over_approx_traits and "rfn" not in o:
                         for iid in self.impls.get(o["fn"], ()):
-                            out.append((iid, t))
+                            out.append((iid, t, "approx"))
             for s in bb["s"]:
                 for o in s["r"].get("o", []):
                     if "fn" in o:
                         out.append((o.get("rfn") or o["fn"], s))
                         if over_approx_traits and "rfn" not in o:
                             for iid in self.impls.get(o["fn"], ()):
-                                out.append((iid, s))
+                                out.append((iid, s, "approx"))
                 if "closure" in s["r"]:
                     out.append((s["r"]["closure"], s))
         return out
 
-    def cone(self, roots, stop=None, crates=None, over_approx_traits=True):
+    def cone(self, roots, stop=None, crates=None, over_approx_traits=True, approx_ok=None):
         """reach(roots) inside the loaded facts. Returns dict id -> (parent id, site) for path reports.
         `stop(fn)` -> True keeps the function out of the cone."""
         seen = {}
@@ -345,11 +345,14 @@ class Facts:
             fn = self.fns.get(x)
             if fn is None:
                 continue
-            for cid, site in self.edges(fn, over_approx_traits):
+            for e in self.edges(fn, over_approx_traits):
+                cid, site = e[0], e[1]
                 if cid in seen:
                     continue
                 cf = self.fns.get(cid)
                 if cf is None:
+                    continue
+                if len(e) > 2 and approx_ok is not None and not approx_ok(cf):
                     continue
                 if crates is not None and cf.crate not in crates:
                     continue
